@@ -117,6 +117,9 @@ def patterns(name, w, rng, k):
 def cell_equal(cell, want):
     import numpy as np
     c = cell.item() if isinstance(cell, np.generic) else cell
+    if isinstance(want, int) and not isinstance(want, bool) and type(want).__name__ != "BoolParameter" and isinstance(c, float):
+        # an integer value stored in a float cell must still BE that integer (a float64 column silently rounds above 2^53)
+        return c == c and c not in (float("inf"), float("-inf")) and c.is_integer() and int(c) == int(want)
     if isinstance(want, float) or isinstance(c, float):
         try:
             cf, wf = float(c), float(want)
